@@ -197,11 +197,11 @@ SPECS["C04"] = node_spec(
     acceptor="plog")
 
 SPECS["C01"] = node_spec(
-    "C01", [], "sm_safety",
+    "C01", ["log.commit", "progress.matched"], "sm_safety",
     "Props/C01.v: in every execution of the abstract protocol, any two nodes agree on the entry at every index both report committed, and the entry a node reports committed at an index is the entry any node (the same node after crashes and restarts included) reports there in any later state; commit points are permanent and mutually consistent. The statement is shown FALSE (explicit execution, checked by computation) for the protocol without the guard that a log image becomes durable only after the hard state covering its entries' terms." + PL_NOTE + " Hand-off to the application (committed_entries of Ready, snapshots) is the subject of C07/C15 at node level.",
     "fixed voter configuration within an execution, no single-node quorum; 'applied through a snapshot' is represented by the ghost full log (a snapshot only forgets a committed prefix).",
     "DESIGN.md section 7, C01",
-    "Theorems: Props/C01.v over P/Log.v (LogSafety.v). Deciding tie: (B) log-layer acceptor on P-level traces (the pointwise differential is diagnostic only).",
+    "Theorems: Props/C01.v over P/Log.v (LogSafety.v). Deciding ties: (B) log-layer acceptor on P-level traces; of the pointwise differential (A) only what feeds commit decisions counts for this property: the commit index and the matched index the leader records per peer.",
     acceptor="plog")
 
 SPECS["C02"] = node_spec(
